@@ -58,9 +58,19 @@ def run(ctx, model_ok):
     n = 60 if ctx.quick() else 800
     reqs, info = [], []
     for i in range(n):
-        threads, evs = sg.gen(rng, n_ops=rng.choice([6, 12, 20]))
+        threads, evs = sg.gen(rng, n_ops=rng.choice([6, 12, 20]), rich=(i % 2 == 1))
         cfg = gen_cfg(rng, evs, threads)
         directed = None
+        if i % 5 == 2:
+            # directed: the text of a thread-terminate trace names the pid of the terminated thread, which only a sampler
+            # record of ANOTHER thread declared; the request filters on the terminating thread alone
+            c = sg.c
+            a_tid, b_tid, pid = 0x601, 0x602, rng.choice([56, 77])
+            extra = [[a_tid, c['PERF_THD_Data'], 0, [pid, b_tid, 0x5000, 1]], [b_tid, c['TRACE_DATA_THREAD_TERMINATE'], 0, [b_tid, 0, 0, 0]],
+                     [b_tid, c['BSC_getpid'], 1, [0, 0, 0, 0]], [b_tid, c['BSC_getpid'], 2, [0, pid, 0, 0]]]
+            k = rng.randrange(len(evs) + 1)
+            evs = evs[:k] + extra + evs[k:]
+            cfg = {'filter_class': [], 'filter_subclass': [], 'filter_tid': b_tid}
         if i % 5 in (0, 1):
             # directed: thread B's process is declared ONLY by a record of ANOTHER thread A (sampler thread data of the
             # sampler class, or a new-thread record of the trace class); B then makes syscalls; the request filters on B's
@@ -82,7 +92,7 @@ def run(ctx, model_ok):
         # each); request 1: class / subclass / tid filters, REPEATED on the same object mixed with callstacks / kevents
         # requests; request 2: process filter alone; request 3: class list given as a tuple; request 4: ALL filters at once
         reqs.append({'file': f, 'cfg': dict(base), 'calls': ['traces', 'formatted_traces']})
-        reqs.append({'file': f, 'cfg': dict(base, **cfg), 'calls': ['traces', 'callstacks', 'traces', 'kevents', 'traces']})
+        reqs.append({'file': f, 'cfg': dict(base, **cfg), 'calls': ['traces', 'callstacks', 'traces', 'kevents', 'traces', 'formatted_traces']})
         reqs.append({'file': f, 'cfg': dict(base, filter_process=proc, show_tid=True), 'calls': ['traces', 'traces']})
         reqs.append({'file': f, 'cfg': {'color': False, 'filter_class_tuple': cfg['filter_class'],
                                         'filter_subclass': cfg['filter_subclass']}, 'calls': ['traces']})
@@ -136,6 +146,13 @@ def run(ctx, model_ok):
             continue
         if 0 < len(flt) < len(unf):
             ctx.nontrivial.add(repr((evs, cfg)))
+        # the formatted lines (process column included) of the filtered request are the reference lines of the selected traces
+        exp_lines = [ln for it, ln in zip(unf, r0[1]['items']) if wanted(it)]
+        if not non_bsd_sub and r1[5]['items'] != exp_lines:
+            j = next((k for k in range(min(len(exp_lines), len(r1[5]['items']))) if exp_lines[k] != r1[5]['items'][k]), 0)
+            ctx.failing.append({'input': inp, 'expected': exp_lines[j:j + 2], 'actual': r1[5]['items'][j:j + 2],
+                                'why': 'the lines of the filtered request (process column, text) are not the lines of the selected '
+                                       'traces of the unfiltered run'})
         # no residue: same request repeated (after callstacks / kevents requests) gives the same output, settings untouched
         for c in (r1[2], r1[4]):
             if c['items'] != flt:
